@@ -189,3 +189,35 @@ Theorem C07_backward_euler_steps_within_the_remaining_interval :
                             solve_ip vresid vclamp_add is_converged two p fuel time_step s)).
 Proof. exact be_step_sizes_within_the_interval. Qed.
 Print Assumptions C07_backward_euler_steps_within_the_remaining_interval.
+
+(* no step exceeds max(h_min, h_max'): with h_max' = min(time_step, h_max_) (time_step when h_max_ is 0) and the first
+   step size as Solve computes them on entry (RosScratchProofs.solve_h_max, solve_first_H: ros_solve's own expressions),
+   any bound B that lies above h_min, h_max' and the first step size lies above every step start and every attempt of
+   the Solve, after any history - the controller never grows a step beyond max(h_min, h_max').  The premise on the
+   first step size is what the known finding of this property is about: it fails only when the tiny-H guard replaces
+   the first size by DELTA_MIN (h_max' <= 10 round_off). *)
+Theorem C07_no_step_exceeds_h_max :
+  forall (N : Num) ltb leb nabs isnan isinf is_zero absorbed pow_inv ten delta_min
+         (V M F : Type) vaxpy vzero mzero add_diag forcing negjac in_place factor_sep solve_sep factor_ip solve_ip nerr
+         (p : params N) (phi : T N -> Q),
+    (forall a b, phi (nadd N a b) == phi a + phi b)%Q ->
+    (forall a b, phi (nsub N a b) == phi a - phi b)%Q ->
+    (forall a b, phi (nmul N a b) == phi a * phi b)%Q ->
+    (forall a b, ltb a b = true <-> (phi a < phi b)%Q) ->
+    (forall a b, leb a b = true <-> (phi a <= phi b)%Q) ->
+    (forall a, phi (nabs a) == Qabs (phi a))%Q ->
+    (0 <= phi (p_round_off p))%Q ->
+    (0 <= phi (p_factor_min p) /\ phi (p_factor_min p) <= 1)%Q ->
+    (0 <= phi (p_factor_max p))%Q ->
+    (0 <= phi (p_rej_dec p) /\ phi (p_rej_dec p) <= 1)%Q ->
+    (forall err, ltb err (n1 N) = false -> (phi (ndiv N (p_safety p) (pow_inv err (p_elo p))) <= 1)%Q) ->
+    forall fuel time_step (s : rstate V M F) (B : Q),
+      (phi (n0 N) == 0)%Q -> (0 <= phi time_step)%Q ->
+      (phi (p_h_min p) <= B)%Q ->
+      (phi (solve_h_max N ltb is_zero p time_step) <= B)%Q ->
+      (phi (solve_first_H N ltb leb nabs is_zero ten delta_min p time_step) <= B)%Q ->
+      Forall (bounded N V M phi B)
+        (r_trace (ros_solve N ltb leb nabs isnan isinf is_zero absorbed pow_inv ten delta_min V M F vaxpy vzero mzero
+                            add_diag forcing negjac in_place factor_sep solve_sep factor_ip solve_ip nerr p fuel time_step s)).
+Proof. exact ros_sizes_bounded. Qed.
+Print Assumptions C07_no_step_exceeds_h_max.
